@@ -90,6 +90,16 @@ pub fn replay(line: &str) -> (bool, String) {
             }
             (bad, out)
         }
+        "chain" => {
+            let seed: u64 = line.split_whitespace().find_map(|t| t.strip_prefix("seed=")).and_then(|v| v.parse().ok()).unwrap_or(0);
+            let mut rep = crate::util::Report::new(check);
+            let bad = memops::chain_session(&mut rep, seed, true);
+            let mut out = String::new();
+            for f in rep.findings.values() {
+                out.push_str(&format!("  FINDING {}: {}\n", f.sig, f.detail));
+            }
+            (bad, out)
+        }
         "calltree" | "excwalk" => {
             let seed: u64 = line.split_whitespace().find_map(|t| t.strip_prefix("seed=")).and_then(|v| v.parse().ok()).unwrap_or(0);
             let mut rep = crate::util::Report::new(check);
